@@ -677,7 +677,8 @@ class ExpressionValue(Value):
         return self.left.int if self.left.is_address() else self.right.int
 
     def extract_constant_from_expression(self):
-        constant = self.left.int if self.left.is_numeric() else self.right.int
+        term = self.left if self.left.is_numeric() else self.right
+        constant = -term.int if term.is_negative() else term.int
         return -constant if self.operation == "-" else constant
 
     def calculate(self, left, right):
